@@ -70,7 +70,8 @@ func (p *ConfigProp[T]) Stage(newValue T) {
 		setRestartNeeded()
 	}
 
-	p.event().Fire(newValue)
+	// Listeners follow the effective value: a command-line overwrite stays in force for the running process.
+	p.event().Fire(overwritable.Get())
 }
 
 func (p *ConfigProp[T]) CommitStaged() {
